@@ -196,6 +196,9 @@ def lattice_template(model, R, rules):
     t4 = tup[0].value.elts
     mvar = maps[0].targets[0].id
     hvar = heaps[0].targets[0].id
+    # the order in which members are generated (and the termination on the top) relies on the heap: all three properties
+    from .c09 import heap_discipline
+    heap_discipline(R, func, hvar, O or G or L)
     if G:
         ok = (name_is(t4[0], e0) and name_is(t4[1], i0) and all(isinstance(x, ast.List) and not x.elts for x in t4[2:]))
         R.check(ok, G, func, tup[0], 'lattice: seed record is (extent, intent, [], [])', f'({e0}, {i0}, [], [])', src(tup[0].value))
